@@ -165,15 +165,17 @@ pub fn exec(case: &[i64]) -> Outcome {
             (d.and_then(|it| it.verify(&AcceptAll, &jwk)).is_ok(), some && pol && p.as_ref().map(|h| h.alg).unwrap_or(false))
           }
         }
-        8 => {
-          // two signatures: the first with b64 = fb (absent or false + crit), the second is (p, u)
+        8 | 10 => {
+          // two signatures: the first with b64 = fb (absent or false + crit), the second is (p, u); entry 10 puts a signature with an UNDECODABLE protected member between them
           let first = if fb { json!({"alg": "EdDSA"}) } else { json!({"alg": "EdDSA", "b64": false, "crit": ["b64"]}) };
           let mut sig = Map::new();
           sig.insert("signature".into(), json!("c2ln"));
           if let Some(pb) = &pb { sig.insert("protected".into(), json!(pb)); }
           if let Some(uj) = &uj { sig.insert("header".into(), uj.clone()); }
-          let tok = serde_json::to_vec(&json!({"payload": "aGk", "signatures": [{"protected": identity_jose::jwu::encode_b64(serde_json::to_vec(&first).unwrap()), "signature": "c2ln"}, Value::Object(sig)]})).unwrap();
-          let ok = match dec.decode_general_serialization(&tok, None) { Ok(mut it) => { let a = it.next(); let b = it.next(); matches!(a, Some(Ok(_))) && matches!(b, Some(Ok(_))) } Err(_) => false };
+          let firstv = json!({"protected": identity_jose::jwu::encode_b64(serde_json::to_vec(&first).unwrap()), "signature": "c2ln"});
+          let sigs = if entry == 8 { vec![firstv, Value::Object(sig)] } else { vec![firstv, json!({"protected": "!!", "signature": "c2ln"}), Value::Object(sig)] };
+          let tok = serde_json::to_vec(&json!({"payload": "aGk", "signatures": sigs})).unwrap();
+          let ok = match dec.decode_general_serialization(&tok, None) { Ok(it) => { let items: Vec<_> = it.collect(); matches!(items.first(), Some(Ok(_))) && matches!(items.last(), Some(Ok(_))) && (entry == 8 || matches!(items.get(1), Some(Err(_)))) } Err(_) => false };
           (ok, some && pol && eb64 == fb)
         }
         _ => {
@@ -225,6 +227,7 @@ pub fn gen(rng: &mut Rng, thorough: bool, sink: &mut Sink) {
     sink.case(case(7, 1, p.as_ref(), u.as_ref()), "table-verify");
     sink.case(case(8, 1, p.as_ref(), u.as_ref()), "table-dec-general-two-b64true");
     sink.case(case(8, 0, p.as_ref(), u.as_ref()), "table-dec-general-two-b64false");
+    sink.case(case(10, 1, p.as_ref(), u.as_ref()), "table-dec-general-three-undecodable-middle"); sink.case(case(10, 0, p.as_ref(), u.as_ref()), "table-dec-general-three-undecodable-middle");
   } }
   // registered names smuggled into the custom map (set_custom), every common field shared both ways
   for id in 0..14 { for e in 0..4 {
